@@ -49,7 +49,7 @@ def configs(tier, seed):
           dict(kind="topdown", H=8, W=8, cstride=1, istride=1, crop=4, c_scale=0.5, i_scale=1.0, eff=1.0),
           dict(kind="topdown", H=8, W=8, cstride=2, istride=2, crop=4, c_scale=1.0, i_scale=1.0, eff=0.5)]
     if tier == "thorough":
-        td += [dict(kind="topdown", H=12, W=12, cstride=2, istride=2, crop=8, c_scale=1.0, i_scale=1.0, eff=0.5), dict(kind="topdown", H=12, W=12, cstride=2, istride=1, crop=4, c_scale=0.5, i_scale=2.0, eff=1.0)]
+        td += [dict(kind="topdown", H=12, W=12, cstride=2, istride=2, crop=8, c_scale=1.0, i_scale=1.0, eff=0.5), dict(kind="topdown", H=12, W=12, cstride=2, istride=1, crop=8, c_scale=0.5, i_scale=2.0, eff=1.0)]
     out += td
     for provider in ("VideoReader", "LabelsReader"):
         for scale in (1.0, 0.5):
@@ -153,7 +153,7 @@ def _run_single(cfg):
 def _run_topdown(cfg):
     import torch
     from symx import torchfe as T, xf, oracle
-    from symx.xf import XF, And, Or, Not, rcmp
+    from symx.xf import XF, And, Or, Not, rcmp, CTX
     from symx.explorer import Explorer
     from symx.harness import Report, discharge
     pf, td, si = _install()
@@ -167,11 +167,13 @@ def _run_topdown(cfg):
     half = Fraction(crop, 2)
     base = []
     ax, ay = kx[0] * xf.Q(eff), ky[0] * xf.Q(eff)  # anchor in model-input pixels
-    base += [ax >= half, ax <= W - half, ay >= half, ay <= H - half]
+    # the crop is cut from the frame resized by the centered-instance model's scale (CentroidCrop.precrop_resize, set by the predictor)
+    base += [ax * xf.Q(isc) >= half, ax * xf.Q(isc) <= int(W * isc) - half, ay * xf.Q(isc) >= half, ay * xf.Q(isc) <= int(H * isc) - half]
     gc = int(H * csc) // cs
     base += [ax * xf.Q(csc) <= (int(W * csc) // cs - 1) * cs, ay * xf.Q(csc) <= (gc - 1) * cs]
-    m_ = Fraction(crop, 2) - is_  # node 1 stays inside the crop's grid span
-    base += [(kx[1] - kx[0]) * xf.Q(eff) <= xf.Q(m_), (kx[0] - kx[1]) * xf.Q(eff) <= xf.Q(m_), (ky[1] - ky[0]) * xf.Q(eff) <= xf.Q(m_), (ky[0] - ky[1]) * xf.Q(eff) <= xf.Q(m_)]
+    m_ = Fraction(crop)  # loose a-priori box for node 1; the binding condition is the crop-containment assumption placed where the crop is known
+    es = eff * isc
+    base += [(kx[1] - kx[0]) * xf.Q(es) <= xf.Q(m_), (kx[0] - kx[1]) * xf.Q(es) <= xf.Q(m_), (ky[1] - ky[0]) * xf.Q(es) <= xf.Q(m_), (ky[0] - ky[1]) * xf.Q(es) <= xf.Q(m_)]
 
     class CentroidNet(torch.nn.Module):
         def forward(self, img):
@@ -187,8 +189,13 @@ def _run_topdown(cfg):
             gh, gw = img.shape[-2] // is_, img.shape[-1] // is_
             vals = []
             tlx, tly = self.tl
+            # claim only frames whose keypoints lie on the grid of the crop the code actually cut (a coarse centroid grid can put the
+            # crop up to half a centroid cell off the anchor): 0 <= k - top_left <= (g-1)*stride, in the crop's own pixels
             for n in range(N):
-                v, cons = oracle.ideal_channel(f"ic{n}", (kx[n] * xf.Q(eff) - xf.R(tlx.v)) * xf.Q(isc), (ky[n] * xf.Q(eff) - xf.R(tly.v)) * xf.Q(isc), gh, gw, is_, True)
+                rx, ry = kx[n] * xf.Q(eff * isc) - xf.R(tlx.v), ky[n] * xf.Q(eff * isc) - xf.R(tly.v)
+                CTX.explorer.assume(z3.And(rx >= 0, rx <= (gw - 1) * is_, ry >= 0, ry <= (gh - 1) * is_))
+            for n in range(N):
+                v, cons = oracle.ideal_channel(f"ic{n}", kx[n] * xf.Q(eff * isc) - xf.R(tlx.v), ky[n] * xf.Q(eff * isc) - xf.R(tly.v), gh, gw, is_, True)
                 oracle.add_constraints(cons)
                 vals += v
             return T.from_values(vals, (1, N, gh, gw), torch.float32)
@@ -199,6 +206,7 @@ def _run_topdown(cfg):
         with T.SymMode():
             cc = td.CentroidCrop(CentroidNet(), output_stride=cs, peak_threshold=0.2, max_instances=None, refinement=None, return_crops=True, crop_hw=(crop, crop), input_scale=float(csc), max_stride=1)
             fip = td.FindInstancePeaks(inet, output_stride=is_, peak_threshold=0.2, refinement=None, input_scale=float(isc), max_stride=1)
+            cc.precrop_resize = float(isc)  # as TopDownPredictor._initialize_inference_model does
 
             def hook(mod, args):
                 bb = args[0]["instance_bbox"].values()
@@ -231,6 +239,8 @@ def _run_topdown(cfg):
                       on_sat=lambda m, env: ("topdown:coords", "top-down keypoint (crop peak + bbox top-left, as assembled by the predictor) is off by more than half an output-stride cell", extract(m, env)))
         rep.sample({"path_condition": ex.path_summary(2, 60), "tolerance_px": float(tol)})
     rep.witness("model-with-visible-and-invisible-node", True)
+    if rep.paths == 0:
+        rep.inconclusive_item("topdown", "no feasible path: the harness precondition (keypoints on the grid of the crop the code cut) is unsatisfiable")
     if ex.truncated:
         rep.inconclusive_item("topdown", "path budget exhausted")
     return rep.finish(extra={"ops": sorted(T.OPS_USED)})
@@ -387,10 +397,11 @@ def replay(cfg, inputs, obligation):
 
             def forward(self, img):
                 gh, gw = img.shape[-2] // is_, img.shape[-1] // is_
-                return _gauss_maps([((k[0] * eff - float(self.tl[0])) * isc, (k[1] * eff - float(self.tl[1])) * isc, True) for k in K], gh, gw, is_)[None]
+                return _gauss_maps([(k[0] * eff * isc - float(self.tl[0]), k[1] * eff * isc - float(self.tl[1]), True) for k in K], gh, gw, is_)[None]
         inet = INet()
         cc = td.CentroidCrop(CNet(), output_stride=cs, peak_threshold=0.2, max_instances=None, refinement=None, return_crops=True, crop_hw=(crop, crop), input_scale=csc, max_stride=1)
         fip = td.FindInstancePeaks(inet, output_stride=is_, peak_threshold=0.2, refinement=None, input_scale=isc, max_stride=1)
+        cc.precrop_resize = isc  # as TopDownPredictor._initialize_inference_model does
         fip.register_forward_pre_hook(lambda mod, args: setattr(inet, "tl", args[0]["instance_bbox"].reshape(-1, 2)[0]))
         out = td.TopDownInferenceModel(cc, fip)({"image": torch.zeros(1, 1, 1, H, W), "frame_idx": torch.tensor([0]), "video_idx": torch.tensor([0]), "orig_size": torch.tensor([[H, W]]), "eff_scale": torch.tensor([eff])})
         if out is None or len(out) != 1:
